@@ -73,6 +73,7 @@ def rfc6979_candidate(n, d, z):
 
 @contract("pycoin.ecdsa.rfc6979:deterministic_generate_k")
 class rfc6979_k:
+    slow_canaries = True
     props = ["C01"]
     sig = dict(generator_order=Int(3), secret_exponent=Int(1), val=Int(0, 2 ** 256 - 1), hash_f=Const(hashlib.sha256))
     returns = Int(1)
